@@ -43,3 +43,22 @@ package pstoremgr
 //@   loop 1 (range addrs)
 //@     invariant importN == old(importN) + idx1
 //@   modifies importN, prioN, lastPrio, lastPrioPeer
+
+// ---- "the peer-address file written at shutdown reads back as the same addresses": the file is rewritten from
+// scratch - whatever it held before is gone once it is opened for writing ----
+// lastTruncated: the name of the file last opened with truncation (os.Create, or os.OpenFile with O_TRUNC)
+//@ ghost var lastTruncated string
+//@ extern os.Create(name)
+//@   records lastTruncated = name
+//@   modifies nothing
+//@ extern os.OpenFile(name, flag, perm)
+//@   records lastTruncated = ite((flag & 512) != 0, name, "")
+//@   modifies nothing
+//@ extern os.File.Write(b)
+//@   modifies nothing
+
+//@ func (pm *Manager) SavePeerstore
+//@   property C14
+//@   requires pm != nil
+//@   at_call os.File.Write assert [written-to-a-truncated-file] pm.peerstorePath != "" && lastTruncated == pm.peerstorePath
+//@   modifies *
